@@ -571,6 +571,14 @@ class DateTimeFieldFormat(AbstractFieldFormat):
         self._has_date = any(
             directive in self.strptime_format for directive in DateTimeFieldFormat._STRPTIME_DATE_DIRECTIVES
         )
+        try:
+            time.strptime("", self.strptime_format)
+        except re.error as error:
+            # For example a part of the date specified twice ("DD.DD").
+            raise errors.InterfaceError("date format %s cannot be used: %s" % (_compat.text_repr(rule), error))
+        except ValueError:
+            # The empty text simply does not match the format.
+            pass
 
     def sql_ansi_type(self):
         # FIXME: Use timestamp for ANSI, date, datetime and time for others.
